@@ -2227,6 +2227,14 @@ def build(log=lambda *a: None):
                      where="%s:%s" % (os.path.basename(row.fn.file or "?"), row.fn.line), fn=row.fn.label())
             name, err = gen.task(row.fn, sig)
             if name is None:
+                if "recursive call of" in (err or ""):
+                    # (mutually) recursive bodies -- e.g. RecInt add(a,b,scalar) <-> sub(a,b,|scalar|) dispatching on the sign of the scalar --
+                    # have no event program (a callee's program is a sub-term of its call): the row is modelled, not analysed, and is
+                    # decided by the dynamic tie only, like the other assumed rows
+                    if not any(a["kind"] == row.kind and a["op"] == row.op for a in assumed):
+                        assumed.append(dict(kind=row.kind, op=row.op, what="recursion: " + err,
+                                            where="%s:%s" % (os.path.basename(row.fn.file or "?"), row.fn.line)))
+                    continue
                 e["reason"] = err
                 unsafe.append(e)
                 continue
@@ -2240,6 +2248,11 @@ def build(log=lambda *a: None):
                 e["weight"] = mir.steps * max(1, sp // 4)
                 entries.append(e)
             except Unsafe as ex:
+                if "recursive call of" in str(ex):      # see above: recursion is modelled, not analysed
+                    if not any(a["kind"] == row.kind and a["op"] == row.op for a in assumed):
+                        assumed.append(dict(kind=row.kind, op=row.op, what="recursion: " + str(ex),
+                                            where="%s:%s" % (os.path.basename(row.fn.file or "?"), row.fn.line)))
+                    continue
                 e["reason"] = str(ex)
                 unsafe.append(e)
             except RecursionError:
